@@ -908,7 +908,8 @@ def run(ctx):
         cmodels = sorted({a['model'] for a in famC})
         sect = [a for a in famC if a['inst'] == 'none' and (not q or a['model'] == cmodels[ctx.seed % len(cmodels)])]
         if not [a for a in sect if 'Pressure' in a['absent'] and 'nlayers' in a['mkeys']] or not [a for a in sect if len(a['absent']) == 5]:
-            raise Machinery('assemblies: family C (presence of sections) was not exported in full')
+            if not ctx.has_violations():        # (selectors that do not resolve are violations of their own)
+                raise Machinery('assemblies: family C (presence of sections) was not exported in full')
         files = dict(MX.write_custom_files(tmp), chemfile=asm_chem_file(tmp))
         from taurex.cache import GlobalCache
         GlobalCache()['xsec_path'] = xsec_dir(tmp)
@@ -918,7 +919,7 @@ def run(ctx):
                      lambda a: 'Chemistry' in a['absent'] and a['inst'] == 'none',
                      lambda a: a['inst'] != 'none' and a['absent']):
             picksC += [a for a in famC if pred(a) and a not in picksC][:1 if q else 4]
-        if len(picksC) < 3:
+        if len(picksC) < 3 and not ctx.has_violations():
             raise Machinery('assemblies: family C offers no file for the command-line program')
         run_assemblies(ctx, chosen + formsB + picksC, tmp, classes)
         ctx.note('%d assembled models (+ %d over the forms of the [Chemistry] selector x [Fitting] sections, + %d with sections left out / an [Instrument] section) '
@@ -969,7 +970,7 @@ def replay(ctx, violations):
                                     asm_par, asm_library, typed_matches)
                 else:
                     hr = run_tlc('FactoryParser', 'MC_FactoryParser_quick.cfg', workers=4)
-                    PZ.run_history(ctx, hr.tagged('WALK'), hr.tagged('FILES')[0], tmp, xsec_dir(tmp), 140, random.Random(ctx.seed * 1009 + 151))
+                    PZ.run_history(ctx, hr.tagged('WALK'), hr.tagged('FILES')[0], tmp, xsec_dir(tmp), 110, random.Random(ctx.seed * 1009 + 151))
                     break
             elif 'par' in v and 'model' in v and 'contribs' in v:      # an assembly (value-grammar vectors name their key `par` too)
                 cf = ClassFactory()
